@@ -140,15 +140,15 @@ func parseContractExpr(text string) (ast.Expr, error) {
 }
 
 type evalCtx struct {
-	vc     *VC
-	fr     *Frame
-	pkg    *types.Package
-	lookup func(name string, cur *State) (bound, bool)
-	cur    *State
-	old    *State
-	now    *State // the real current state (cur is switched to old inside old())
-	qvars  map[string]bound
-	inst   []Term // assumption context: also state these instances of every outermost forall
+	vc      *VC
+	fr      *Frame
+	pkg     *types.Package
+	lookup  func(name string, cur *State) (bound, bool)
+	cur     *State
+	old     *State
+	now     *State // the real current state (cur is switched to old inside old())
+	qvars   map[string]bound
+	inst    []Term // assumption context: also state these instances of every outermost forall
 	skTop   bool   // goal context: we are at a position where a forall may be skolemised
 	skolems []Term // skolem constants introduced
 }
